@@ -118,6 +118,11 @@ pub struct Built {
 	pub written: Vec<O>,
 	pub header_end: usize,
 	pub blocks: Vec<BlockPos>,
+	/// the bytes come from `vmodel::container::cf_write`
+	pub reference_written: bool,
+	/// why the crate-written file was replaced by the reference-written one (the independent
+	/// parser did not accept what the crate's `Writer` produced)
+	pub fallback: Option<String>,
 }
 
 fn compression(codec: usize) -> Compression {
@@ -148,7 +153,7 @@ pub fn build(desc: &UnitDesc) -> Result<Built, String> {
 	let values: Vec<RValue> = (0..n).map(|i| value_at(desc.schema, i)).collect();
 	let written: Vec<O> = values.iter().map(|v| gen::expect_obs(v, &rs, &env, ObsMode::Any, false).unborrowed()).collect();
 	let datums: Vec<Vec<u8>> = values.iter().map(|v| vmodel::value::encode(v, &rs, &env, &mut vmodel::value::Canonical)).collect::<Result<_, _>>()?;
-	let bytes: Vec<u8> = if desc.model_written {
+	let write_reference = || -> Result<Vec<u8>, String> {
 		let meta = vec![("avro.schema".to_owned(), schema_text.clone().into_bytes()), ("avro.codec".to_owned(), CODECS[desc.codec].as_bytes().to_vec())];
 		let mut blocks = Vec::new();
 		let mut pos = 0;
@@ -156,8 +161,9 @@ pub fn build(desc: &UnitDesc) -> Result<Built, String> {
 			blocks.push((c as u64, datums[pos..pos + c].concat()));
 			pos += c;
 		}
-		vmodel::container::cf_write(&meta, &vmodel::container::MetaLayout { blocks: vec![2], sized: false }, SYNC, CODECS[desc.codec], &blocks)?
-	} else {
+		vmodel::container::cf_write(&meta, &vmodel::container::MetaLayout { blocks: vec![2], sized: false }, SYNC, CODECS[desc.codec], &blocks)
+	};
+	let write_crate = || -> Result<Vec<u8>, String> {
 		if desc.layout.iter().any(|&c| c == 0) {
 			return Err("the crate's writer cannot produce an empty block".into());
 		}
@@ -177,47 +183,61 @@ pub fn build(desc: &UnitDesc) -> Result<Built, String> {
 			w.into_inner().map_err(|e| e.to_string())
 		}));
 		match r {
-			Ok(r) => r?,
-			Err(p) => return Err(format!("writer panicked: {}", panic_message(p))),
+			Ok(r) => r,
+			Err(p) => Err(format!("writer panicked: {}", panic_message(p))),
 		}
 	};
-	// cross-check with the independent parser: the premise of C17 is a *valid* file
-	let parsed = vmodel::container::cf_parse(&bytes).map_err(|e| format!("cf_parse rejects the file: {e}"))?;
-	if parsed.codec != CODECS[desc.codec] || parsed.sync != SYNC {
-		return Err(format!("codec/sync in the file differ: {:?}", parsed.codec));
-	}
-	if parsed.meta_get("avro.schema").map(|s| String::from_utf8_lossy(s).into_owned()).as_deref() != Some(schema_text.as_str()) {
-		return Err("avro.schema in the file differs from the schema text".into());
-	}
-	if parsed.blocks.len() != desc.layout.len() {
-		return Err(format!("{} blocks in the file, layout {:?}", parsed.blocks.len(), desc.layout));
-	}
-	let mut pos = 0;
-	for (b, &c) in parsed.blocks.iter().zip(&desc.layout) {
-		if b.count as usize != c || b.data != datums[pos..pos + c].concat() {
-			return Err(format!("block content differs from the model encoding (count {} vs {c})", b.count));
+	// cross-check with the independent parser (the premise of C17 is a *valid* file) and locate the framing
+	let locate = |bytes: &[u8]| -> Result<(usize, Vec<BlockPos>), String> {
+		let parsed = vmodel::container::cf_parse(bytes).map_err(|e| format!("cf_parse rejects the file: {e}"))?;
+		if parsed.codec != CODECS[desc.codec] || parsed.sync != SYNC {
+			return Err(format!("codec/sync in the file differ: {:?}", parsed.codec));
 		}
-		pos += c;
-	}
-	let blocks_len: usize = parsed.blocks.iter().map(|b| varint_len(b.count as i64) + varint_len(b.raw.len() as i64) + b.raw.len() + 16).sum();
-	let header_end = bytes.len() - blocks_len;
-	if bytes[header_end - 16..header_end] != SYNC {
-		return Err("header sync marker not where the model locates it".into());
-	}
-	let mut blocks = Vec::new();
-	let mut at = header_end;
-	for b in &parsed.blocks {
-		let count_len = varint_len(b.count as i64);
-		let size_len = varint_len(b.raw.len() as i64);
-		let data_start = at + count_len + size_len;
-		let sync_start = data_start + b.raw.len();
-		if bytes[sync_start..sync_start + 16] != SYNC {
-			return Err("block sync marker not where the model locates it".into());
+		if parsed.meta_get("avro.schema").map(|s| String::from_utf8_lossy(s).into_owned()).as_deref() != Some(schema_text.as_str()) {
+			return Err("avro.schema in the file differs from the schema text".into());
 		}
-		blocks.push(BlockPos { start: at, count: b.count as i64, count_len, size: b.raw.len() as i64, size_len, data_start, sync_start });
-		at = sync_start + 16;
+		if parsed.blocks.len() != desc.layout.len() {
+			return Err(format!("{} blocks in the file, layout {:?}", parsed.blocks.len(), desc.layout));
+		}
+		let mut pos = 0;
+		for (b, &c) in parsed.blocks.iter().zip(&desc.layout) {
+			if b.count as usize != c || b.data != datums[pos..pos + c].concat() {
+				return Err(format!("block content differs from the model encoding (count {} vs {c})", b.count));
+			}
+			pos += c;
+		}
+		let blocks_len: usize = parsed.blocks.iter().map(|b| varint_len(b.count as i64) + varint_len(b.raw.len() as i64) + b.raw.len() + 16).sum();
+		let header_end = bytes.len() - blocks_len;
+		if bytes[header_end - 16..header_end] != SYNC {
+			return Err("header sync marker not where the model locates it".into());
+		}
+		let mut blocks = Vec::new();
+		let mut at = header_end;
+		for b in &parsed.blocks {
+			let count_len = varint_len(b.count as i64);
+			let size_len = varint_len(b.raw.len() as i64);
+			let data_start = at + count_len + size_len;
+			let sync_start = data_start + b.raw.len();
+			if bytes[sync_start..sync_start + 16] != SYNC {
+				return Err("block sync marker not where the model locates it".into());
+			}
+			blocks.push(BlockPos { start: at, count: b.count as i64, count_len, size: b.raw.len() as i64, size_len, data_start, sync_start });
+			at = sync_start + 16;
+		}
+		Ok((header_end, blocks))
+	};
+	let mut fallback = None;
+	if !desc.model_written {
+		// the crate's writer is not what C17 is about: a file it gets wrong (C05/C06's business) is replaced
+		// by the reference-written one, so that the READER is still judged
+		match write_crate().and_then(|bytes| locate(&bytes).map(|(h, b)| (bytes, h, b))) {
+			Ok((bytes, header_end, blocks)) => return Ok(Built { desc: desc.clone(), schema_text, bytes, written, header_end, blocks, reference_written: false, fallback: None }),
+			Err(e) => fallback = Some(e),
+		}
 	}
-	Ok(Built { desc: desc.clone(), schema_text, bytes, written, header_end, blocks })
+	let bytes = write_reference()?;
+	let (header_end, blocks) = locate(&bytes).map_err(|e| format!("reference-written file: {e}"))?;
+	Ok(Built { desc: desc.clone(), schema_text, bytes, written, header_end, blocks, reference_written: true, fallback })
 }
 
 fn layouts_all(alphabet: &[usize], max_len: usize) -> Vec<Vec<usize>> {
@@ -254,7 +274,8 @@ pub fn units(thorough: bool) -> Vec<UnitDesc> {
 				}
 			}
 			// files with empty blocks can only come from the model's writer
-			for l in [vec![0], vec![0, 0], vec![2, 0, 1], vec![0, 3], vec![1, 0], vec![4, 4, 4]] {
+			// ... and by-the-book multi-block files that do not depend on the crate's writer
+			for l in [vec![0], vec![0, 0], vec![2, 0, 1], vec![0, 3], vec![1, 0], vec![4, 4, 4], vec![2, 1], vec![1, 2, 1]] {
 				out.push(UnitDesc { codec, schema, layout: l, model_written: true, deep: false });
 			}
 		}
@@ -1084,6 +1105,15 @@ pub fn judge(u: &Built, c: &Case, e: &Exec) -> Vec<(&'static str, String)> {
 			out.push(("io-error-not-final", format!("call {} returned an I/O error, call {} returned {} instead of end of stream", i, i + 1 + j, seq[i + 1 + j].short())));
 		}
 	}
+	// the undamaged file (every reader kind; the second consumption mode is tied to this one by judge_iter /
+	// judge_borrow): exactly the written values, then end of stream
+	if matches!(c, Case::Trunc { off, .. } if *off == u.bytes.len()) {
+		let n = u.written.len();
+		let good = seq.len() > n && seq[..n].iter().zip(&u.written).all(|(r, w)| matches!(r, Res::Val(o) if o == w)) && seq[n..].iter().all(|r| matches!(r, Res::None));
+		if !good {
+			out.push(("undamaged-file-misread", format!("the undamaged file must read as its {n} written values and then end of stream")));
+		}
+	}
 	let null_schema = u.desc.schema == 3;
 	// genuine prefix: truncation and read errors cannot legitimately change or add a value
 	if matches!(class, "trunc" | "io" | "trunc+io") && !null_schema {
@@ -1182,7 +1212,13 @@ pub fn describe(u: &Built, c: &Case, bytes: &[u8], e: &Exec) -> String {
 		CODECS[u.desc.codec],
 		u.schema_text,
 		u.desc.layout,
-		if u.desc.model_written { "written by vmodel::cf_write" } else { "written by the crate's Writer" },
+		if !u.reference_written {
+			"written by the crate's Writer"
+		} else if u.fallback.is_some() {
+			"written by vmodel::cf_write because the independent parser rejects what the crate's Writer produced"
+		} else {
+			"written by vmodel::cf_write"
+		},
 		u.bytes.len(),
 		hex(&u.bytes).replace(' ', ""),
 		c,
@@ -1313,7 +1349,10 @@ fn run_case(u: &Built, c: &Case) -> CaseOutcome {
 				counters.push("undamaged_read_completely");
 			}
 			if !damaged && has_err {
-				counters.push("undamaged_but_err(D14: C05/C11's business)");
+				counters.push("undamaged_but_err");
+			}
+			if !damaged && n_vals == u.written.len() && !has_err && u.reference_written && u.blocks.len() >= 2 {
+				counters.push("undamaged_reference_written_multi_block_read_completely");
 			}
 		}
 		"io" | "trunc+io" => {
@@ -1725,9 +1764,19 @@ pub fn run(rep: &mut Report) {
 	let descs = units(thorough);
 	// build every unit once in the parent: a unit that cannot be built is a machinery error
 	let mut sizes = Vec::new();
+	let mut fallbacks: Vec<String> = Vec::new();
+	let mut reference_files = 0u64;
 	for (i, d) in descs.iter().enumerate() {
 		match build(d) {
-			Ok(u) => sizes.push(u.bytes.len()),
+			Ok(u) => {
+				sizes.push(u.bytes.len());
+				if u.reference_written {
+					reference_files += 1;
+				}
+				if let Some(why) = &u.fallback {
+					fallbacks.push(format!("codec {} schema {} blocks {:?}: the file written by the crate's Writer is not accepted by the independent parser ({why}); the reference-written file is used as base", CODECS[d.codec], u.schema_text, d.layout));
+				}
+			}
 			Err(e) => {
 				eprintln!("MACHINERY: C17 cannot build unit {i} {d:?}: {e}");
 				std::process::exit(2);
@@ -1735,7 +1784,7 @@ pub fn run(rep: &mut Report) {
 		}
 	}
 	rep.rule = format!(
-		"Fault enumeration: {} valid container files (6 codecs x schemas long/string/record{{a:long,b:string}}, 1-3 blocks of {} datums, pairwise distinct values; plus null-schema files for the no-panic part; written by the crate's Writer with pinned sync marker, plus files with empty blocks written by vmodel::cf_write; each cross-checked with vmodel::cf_parse; {}..{} bytes) x [truncation at every offset 0..=len] x [single-byte corruption at every offset with {}] x [I/O error at every read-call index, reader kinds only]{} x [framing damage located by the model: header sync / block sync bytes {}, declared size +-1, declared count +-1, snappy CRC bytes] x reader kind {{slice, ChunkedBufRead 1-byte chunks, ChunkedBufRead whole buffer{}}}; every case = one damaged file on the real Reader, called until end of stream has been reported (+5 calls) but at most B+{} times, B = sum of the declared object counts + blocks + 8 from a lenient model walk over the damaged file's block framing (n+8 calls when a declared count exceeds 10000 or the header cannot be walked: no progress verdict, counted), in a worker subprocess with a {} s per-case horizon. Every case is consumed a second time through the iterator API on a fresh reader over the same bytes and faults: reader.deserialize::<T>() taken for at most B items must yield, item by item (kind, value, I/O flag), what the deserialize_next loop returns before its first Ok(None), end exactly there, and one further deserialize_next must return what the loop returns next; on the slice reader of null-codec files with a string in the schema also deserialize_next_borrowed::<&str / struct with &str>() (a schema-agnostic borrowing observer when the damage touched the header) call by call and deserialize_borrowed() as iterator: same results as the owned loop, every borrowed value pointing into the file slice. Oracle: never a panic/hang; progress (all classes): Ok(None) is reported within B calls also when the caller keeps calling after errors; truncation and read errors: the Ok(Some) results are exactly a prefix of the written values and none follows the first Err/None; the error reported for a truncated file is followed only by Ok(None); an Err carrying an I/O error is followed only by Ok(None); an injected read error is reported by exactly one call and then Ok(None); model-located sync/size/count/CRC damage yields an Err before end of stream (sync: then only Ok(None)); corruption: no panic, no hang, I/O-error-then-EOS. An early Err on an undamaged deflate/bzip2/xz file through a small-refill reader (D14) is not judged here. states = cases + deserialize_next results, transitions = deserialize_next results. Non-trivial = damaged case in which the Reader was constructed and then reported an error, ended early or returned a changed value; distinct on (file, damage, reader kind).",
+		"Fault enumeration: {} valid container files (6 codecs x schemas long/string/record{{a:long,b:string}}, 1-3 blocks of {} datums, pairwise distinct values; plus null-schema files for the no-panic part; written by the crate's Writer with pinned sync marker, plus reference-written files (vmodel::cf_write: by-the-book multi-block files [2,1], [1,2,1], [4,4,4] and files with empty blocks) for every codec; each cross-checked with vmodel::cf_parse, a crate-written file the independent parser does not accept is replaced by the reference-written one (counted, listed in the evidence); {}..{} bytes) x [truncation at every offset 0..=len] x [single-byte corruption at every offset with {}] x [I/O error at every read-call index, reader kinds only]{} x [framing damage located by the model: header sync / block sync bytes {}, declared size +-1, declared count +-1, snappy CRC bytes] x reader kind {{slice, ChunkedBufRead 1-byte chunks, ChunkedBufRead whole buffer{}}}; every case = one damaged file on the real Reader, called until end of stream has been reported (+5 calls) but at most B+{} times, B = sum of the declared object counts + blocks + 8 from a lenient model walk over the damaged file's block framing (n+8 calls when a declared count exceeds 10000 or the header cannot be walked: no progress verdict, counted), in a worker subprocess with a {} s per-case horizon. Every case is consumed a second time through the iterator API on a fresh reader over the same bytes and faults: reader.deserialize::<T>() taken for at most B items must yield, item by item (kind, value, I/O flag), what the deserialize_next loop returns before its first Ok(None), end exactly there, and one further deserialize_next must return what the loop returns next; on the slice reader of null-codec files with a string in the schema also deserialize_next_borrowed::<&str / struct with &str>() (a schema-agnostic borrowing observer when the damage touched the header) call by call and deserialize_borrowed() as iterator: same results as the owned loop, every borrowed value pointing into the file slice. Oracle: the undamaged file reads, through every reader kind and both consumption modes, as exactly the written values and then end of stream; never a panic/hang; progress (all classes): Ok(None) is reported within B calls also when the caller keeps calling after errors; truncation and read errors: the Ok(Some) results are exactly a prefix of the written values and none follows the first Err/None; the error reported for a truncated file is followed only by Ok(None); an Err carrying an I/O error is followed only by Ok(None); an injected read error is reported by exactly one call and then Ok(None); model-located sync/size/count/CRC damage yields an Err before end of stream (sync: then only Ok(None)); corruption: no panic, no hang, I/O-error-then-EOS. states = cases + deserialize_next results, transitions = deserialize_next results. Non-trivial = damaged case in which the Reader was constructed and then reported an error, ended early or returned a changed value; distinct on (file, damage, reader kind).",
 		descs.len(),
 		if thorough { "1, 2 or 4 (all 39 layouts, plus [3] and [1,2,1])" } else { "1, 2 or 4 (all 12 layouts of <= 2 blocks, plus [3], [2,1] and [1,2,1])" },
 		sizes.iter().min().unwrap(),
@@ -1773,10 +1822,14 @@ pub fn run(rep: &mut Report) {
 	}
 	rep.cover.states += descs.len() as u64;
 	rep.extra.insert("files".into(), json!(descs.len()));
+	rep.cover.count("base_files_reference_written", reference_files);
+	rep.cover.count("base_files_crate_written_rejected_by_the_independent_parser(replaced by reference-written; C05/C06's business)", fallbacks.len() as u64);
+	rep.extra.insert("crate_written_base_files_replaced".into(), json!({"count": fallbacks.len(), "first": fallbacks.iter().take(3).collect::<Vec<_>>()}));
 	rep.extra.insert("file_bytes_min_max".into(), json!([sizes.iter().min(), sizes.iter().max()]));
 	// vacuity guards: the behaviours the oracle relies on must have been exercised
 	let need = [
 		"undamaged_read_completely",
+		"undamaged_reference_written_multi_block_read_completely",
 		"trunc_partial_prefix_then_err",
 		"trunc_prefix_then_clean_eos",
 		"trunc_err_io",
